@@ -70,6 +70,8 @@ TEMPLATES = [
     "def f(x: Union[{A}, {B}, None], y: object) -> None:\n    if isinstance(x, ({A}, {B}, bytes, float)):\n        reveal_type(x)\n    if isinstance(y, ({A}, {B}, bool)) and y in ({LA}, {LB}, {LC}):\n        reveal_type(y)\n    if type(y) in {{int, str, bytes}}:\n        reveal_type(y)\n",
     "class Q1:\n    qa: int = 1\nclass Q2(Q1):\n    qb: str = ''\nclass Q3(Q2, Generic[T]):\n    def m(self, t: T) -> None:\n        print(self.qa, self.qb, self.qc, self.qd)\n        self.qe = t\ndef f(q: Q3[{A}], r: float, i: int) -> None:\n    q.m({LB})\n    reveal_type(q.qe)\n    r = i\n    i = r\n    cpx: complex = i\n    use(i)\n    use(r)\ndef use(p: P3) -> None: ...\n",
     "def takes(**kwargs: str) -> None: ...\ndef takes2(a: int = 0, **kwargs: {B}) -> None: ...\ndef f(key: Literal['alpha', 'beta', 'gamma', 'delta'], k2: Literal['a', 'bb', {LB}]) -> None:\n    takes(**{{key: 1}})\n    takes2(**{{key: {LA}, k2: None}})\n    takes2(**{{k2: 1.5}}, **{{key: b''}})\n",
+    # sets nested inside other literal containers
+    "ND = {{'k': {{'alpha', 'beta', 'gamma', {LB}}}, 'j': [{{'delta', 'epsilon'}}], 'i': ({{'zeta', 'eta'}}, 1)}}\nNF = frozenset({{frozenset({{'a', 'b'}}), frozenset({{'c', 'd'}})}})\ndef f() -> None:\n    w: int = ND\n    u: int = NF\n    reveal_type(ND['j'])\n",
     # a fourth pair for the history search: calls of builtins whose typeshed signatures mention protocols, then the text of those signatures
     "def f(x: object) -> None:\n    print(int(3.5), len('a'), abs(-1), iter([{LA}]), sorted([{LA}]), hash({LB}))\n",
     "def f() -> None:\n    reveal_type(int)\n    reveal_type(len)\n    reveal_type(abs)\n    reveal_type(iter)\n    reveal_type(hash)\n",
